@@ -93,7 +93,7 @@ def walk_own(node: ast.AST) -> Iterator[ast.AST]:
     return own_nodes(node)
 
 
-def make_resolver(ctx, unit, ops, skip=()):
+def make_resolver(ctx, unit, ops, skip=(), coroutines=False):
     """Resolver for asl.absint.Machine: calls of synchronous library helpers are evaluated
     by a nested machine (so extracting code into a private helper stays visible)."""
     from asl.absint import AbsEval
@@ -112,7 +112,8 @@ def make_resolver(ctx, unit, ops, skip=()):
             elif f[0] == "bound":
                 target = ctx.vals.find_method(f[1], f[2])
                 offset = 1
-            if target is None or target.kind != "sync" or target.is_property():
+            if target is None or target.is_property() or \
+                    target.kind not in (("sync", "coroutine") if coroutines else ("sync",)):
                 continue
             if target.qualname.rsplit(".", 1)[-1] in skip:
                 continue
